@@ -2534,11 +2534,18 @@ class View(Module):
         self._set_synapses_in_view(pointer)
 
         ptr_recs = pointer.recordings
-        self.recordings = (
-            pd.DataFrame()
-            if ptr_recs.empty
-            else ptr_recs.loc[ptr_recs["rec_index"].isin(self._comps_in_view)]
-        )
+        if ptr_recs.empty:
+            self.recordings = pd.DataFrame()
+        else:
+            # Recordings of compartment states are indexed by compartments, recordings
+            # of synaptic states and currents by edges.
+            comp_states, _ = self.base._get_state_names()
+            is_comp_state = ptr_recs["state"].isin(comp_states)
+            comp_in_view = ptr_recs["rec_index"].isin(self._comps_in_view)
+            edge_in_view = ptr_recs["rec_index"].isin(self._edges_in_view)
+            self.recordings = ptr_recs.loc[
+                (is_comp_state & comp_in_view) | (~is_comp_state & edge_in_view)
+            ]
 
         self.channels = self._channels_in_view(pointer)
         self.membrane_current_names = [c.current_name for c in self.channels]
